@@ -223,7 +223,7 @@ class AtomGrid(Grid):
         if preset in ["sg_0", "sg_2", "sg_3", "g1", "g2", "g3", "g4", "g5", "g6", "g7"]:
             sector_sizes = [npt[idx] for idx in range(len(rad)) for _ in range(rad[idx])]
             return cls(rgrid, None, sizes=sector_sizes, center=center, rotate=rotate, method=method)
-        elif preset == "sg_1" and atnum > 19:
+        elif preset == "sg_1" and atnum > 18:
             sector_sizes = [npt[idx] for idx in range(len(rad)) for _ in range(rad[idx])]
             return cls(rgrid, None, sizes=sector_sizes, center=center, rotate=rotate, method=method)
         else:
